@@ -14,6 +14,7 @@ func TestVerifReplay(t *testing.T) {
 		"VerifC12SubmitQuick":      VerifC12SubmitQuick,
 		"VerifC12SubmitThorough":   VerifC12SubmitThorough,
 		"VerifC12SelectQuick":      VerifC12SelectQuick,
+		"VerifC12PlayVsSubmit":     VerifC12PlayVsSubmit,
 		"VerifC06Quick":            VerifC06Quick,
 		"VerifC13Quick":            VerifC13Quick,
 		"VerifC13Thorough":         VerifC13Thorough,
